@@ -42,9 +42,17 @@ ADVERSARIAL += ["a·b", "a\u093f", "\u00fcb"]
 _TOKEN = re.compile(r"\bc[0-7]\b")
 
 
-def renamings(rnd):
+# module names need not be identifiers (a directory 'core-old' or 'core (copy)' next to 'core' is a module that can
+# import but cannot be imported): characters that sort BELOW "." - only for driver-built graphs, never spelled in an import
+NON_IDENTIFIER = ["a-old", "a (copy)", "a$x", "a+b", "a-"]
+
+
+def renamings(rnd, identifiers_only=True):
     rho1 = {c: f"m{i}" for i, c in enumerate(ABSTRACT)}
-    names = rnd.sample(ADVERSARIAL, len(ABSTRACT))
+    pool = ADVERSARIAL if identifiers_only else ADVERSARIAL + NON_IDENTIFIER
+    names = rnd.sample(pool, len(ABSTRACT))
+    if not identifiers_only and not any(n in NON_IDENTIFIER for n in names[:5]) and rnd.random() < 0.6:
+        names[rnd.randint(1, 4)] = rnd.choice([n for n in NON_IDENTIFIER if n not in names])
     if "a" not in names[:4]:
         names[0] = "a" if "a" not in names else names[0]
     rho2 = dict(zip(ABSTRACT, names))
@@ -113,7 +121,7 @@ def run_shard(spec, acc):
     rnd = random.Random(spec["seed"])
     fn = {"rules": case_rule, "layers": case_layer, "labels": case_labels, "scans": case_scan}[spec["kind"]]
     for i in range(spec["n"]):
-        rho1, rho2 = renamings(rnd)
+        rho1, rho2 = renamings(rnd, identifiers_only=spec["kind"] == "scans")
         fn(rnd, rho1, rho2, acc, sample=(i % 151 == 0))
 
 
